@@ -6,6 +6,9 @@ CONSTANTS
   FirstT <- Neg3
   MaxT = 9
   Kinds = {"f", "n", "i", "sf", "h", "sh"}
+  RunGaps = {}
+  RunLens = {}
+  MaxRuns = 0
   Sels <- SelsAB
   Offs <- OffsBig
   Ats <- AtsSim
